@@ -373,6 +373,15 @@ class _Synonyms(ast.NodeTransformer):
                 else:
                     args.append(a)
             n.args = args
+        # map(f, it)  ->  (f(x) for x in it)      (one iterable; both are lazy and call f once per item, in order)
+        if isinstance(n.func, ast.Name) and n.func.id == "map" and len(n.args) == 2 and not n.keywords and not any(isinstance(a, ast.Starred) for a in n.args) \
+                and isinstance(n.args[0], (ast.Name, ast.Attribute, ast.Lambda)):
+            used = {x.id for x in ast.walk(n) if isinstance(x, ast.Name)}
+            v = "item__m"
+            while v in used:
+                v += "_"
+            call = ast.Call(func=n.args[0], args=[ast.Name(id=v, ctx=ast.Load())], keywords=[])
+            return ast.copy_location(ast.GeneratorExp(elt=call, generators=[ast.comprehension(target=ast.Name(id=v, ctx=ast.Store()), iter=n.args[1], ifs=[], is_async=0)]), n)
         # operator.add(a, b) / np.add(a, b) -> a + b   (likewise sub, mul, truediv, matmul, and_, or_, xor; two positional arguments only)
         _BIN = {"operator.add": ast.Add, "operator.sub": ast.Sub, "operator.mul": ast.Mult, "operator.truediv": ast.Div, "operator.matmul": ast.MatMult,
                 "operator.and_": ast.BitAnd, "operator.or_": ast.BitOr, "operator.xor": ast.BitXor, "operator.floordiv": ast.FloorDiv, "operator.mod": ast.Mod,
